@@ -224,23 +224,23 @@ BatchCases == (UNION { ShapesDev(D) : D \in DevSets }) \cup Crafted
 -----------------------------------------------------------------------------
 (* export *)
 
-AmtSeq   == SX!SetToSeq(AmtCases)
-BatchSeq == SX!SetToSeq(BatchCases)
-
-AmtLine(i) ==
-  LET t == AmtSeq[i]
-      p == ParseAmount(t)
+AmtLine(i, t) ==
+  LET p == ParseAmount(t)
   IN [id |-> i, tok |-> t, exp_ok |-> p.ok, exp_v |-> p.v, may |-> AmountMayReject(Abstract(t))]
 
-BatchLine(i) ==
-  LET s == BatchSeq[i]
-  IN [id |-> i, shape |-> s, canonical |-> Canonical(s), must |-> MustAccept(s)]
+BatchLine(i, s) == [id |-> i, shape |-> s, canonical |-> Canonical(s), must |-> MustAccept(s)]
 
-ASSUME ndJsonSerialize("cases_amt.ndjson", [i \in 1..Len(AmtSeq) |-> AmtLine(i)])
-ASSUME ndJsonSerialize("cases_batch.ndjson", [i \in 1..Len(BatchSeq) |-> BatchLine(i)])
-ASSUME PrintT(<<"CASES", Len(AmtSeq), Len(BatchSeq),
-                Cardinality({t \in AmtCases : ParseAmount(t).ok}),
-                Cardinality({s \in BatchCases : Canonical(s)})>>)
+ExportAmt ==
+  LET seq == SX!SetToSeq(AmtCases)
+  IN /\ ndJsonSerialize("cases_amt.ndjson", [i \in 1..Len(seq) |-> AmtLine(i, seq[i])])
+     /\ PrintT(<<"CASES_AMT", Len(seq)>>)
+ExportBatch ==
+  LET seq == SX!SetToSeq(BatchCases)
+  IN /\ ndJsonSerialize("cases_batch.ndjson", [i \in 1..Len(seq) |-> BatchLine(i, seq[i])])
+     /\ PrintT(<<"CASES_BATCH", Len(seq)>>)
+
+ASSUME ExportAmt
+ASSUME ExportBatch
 
 -----------------------------------------------------------------------------
 (* state graph: one state per case *)
@@ -284,7 +284,7 @@ BatchInv ==
     LET s == c.shape
     IN /\ MustAccept(s) => Canonical(s)
        /\ RoundTrip(s)
-       /\ Canonical(s) => FoldShape(s) = s
+       /\ Canonical(s) => Canonical(FoldShape(s))
        /\ Canonical(s) = Canonical([s EXCEPT !.ws = "none", !.ukind = "short"])
        \* the conjuncts of the property text, restated on the meaning
        /\ Canonical(s) =>
